@@ -451,7 +451,7 @@ static void exec_stmt(Node* n, Ctx c) {
         d1::wait(*g_idle[V], *g_idle_ctx);
     } else if (op == "wake") {
         int V = (int)arg(0);
-        while (!g_idle[V]) _mm_pause();          // (created by the idling thread before it waits)
+        while (!g_idle[V]) { (void)g_ev[MAXV - 1].load(); _mm_pause(); }          // (created by the idling thread before it waits; parkable)
         if (!g_woken[V]) { g_woken[V] = true; g_idle[V]->release(); }
     } else if (op == "ifthread") {
         if (verif::self() == (int)arg(0)) run_block(n->kids, c);
